@@ -343,10 +343,9 @@ func c17DecodeTarget(w *World, r *Report, mts []*types.Named) {
 								if !isSt || st.Addr != ssa.Value(fa) || !reachableAfter(st, c) {
 									continue
 								}
-								switch st.Val.Type().Underlying().(type) {
-								case *types.Slice, *types.Map, *types.Pointer:
+								if holdsReference(st.Val.Type(), 0) {
 									if root, p := accessPath(st.Val); root == ssa.Value(recv) && len(p) > 0 {
-										ok, msg = false, "the decode target is pre-populated with the prototype's "+strings.Join(p, ".")+": the decoder writes the override into the prototype's memory"
+										ok, msg = false, "the decode target is pre-populated with the prototype's "+strings.Join(p, ".")+": the decoder writes the override into the prototype's memory (slices are decoded element by element into the existing backing array)"
 									}
 								}
 							}
@@ -763,4 +762,25 @@ func isCtorOf(w *World, g *ssa.Function, t *types.Named) bool {
 		return false
 	}
 	return len(ruleLiteralAllocs(g, t)) > 0
+}
+
+// holdsReference: a value of type t shares memory when copied: a slice, map or pointer, or a struct
+// / array holding one (to a small depth).
+func holdsReference(t types.Type, depth int) bool {
+	if depth > 3 {
+		return false
+	}
+	switch u := t.Underlying().(type) {
+	case *types.Slice, *types.Map, *types.Pointer:
+		return true
+	case *types.Struct:
+		for i := 0; i < u.NumFields(); i++ {
+			if holdsReference(u.Field(i).Type(), depth+1) {
+				return true
+			}
+		}
+	case *types.Array:
+		return holdsReference(u.Elem(), depth+1)
+	}
+	return false
 }
